@@ -4,7 +4,7 @@
 
 use crate::common::*;
 use crate::gen::*;
-use crate::interp::{Outcome, Termination};
+use crate::interp::{Opts, Outcome, Termination};
 use crate::osc::{self, Osc, OscCaps};
 use crate::prog::*;
 use crate::props::PropSpec;
@@ -39,6 +39,8 @@ pub struct OscProp {
 pub const KNOWN_ENDPOINT_DROP: &str = "c02.mpsc-endpoint-drop-no-yield";
 pub const KNOWN_SEM_OBSERVERS: &str = "c02.semaphore-observers-no-yield";
 pub const KNOWN_BARRIER_ARRIVAL: &str = "c02.barrier-blocking-arrival-no-yield";
+pub const KNOWN_ACQ_DROP: &str = "c02.acquire-drop-no-yield";
+pub const KNOWN_REBLOCK: &str = "c18.reblock-if-unfair-blocks-non-waiting-task";
 pub const KNOWN_TRYSEND_FULL: &str = "c06.try-send-full-behind-woken-sender";
 
 #[derive(Clone, Debug, serde::Serialize, serde::Deserialize)]
@@ -60,72 +62,44 @@ fn term_key(t: &Termination) -> String {
     }
 }
 
-/// Insert a Yield before every op selected by `pred` and (optionally) at the end of every task that
-/// owns channel ends: used to recognise known "missing scheduling point" findings — if the
-/// disagreement disappears once an explicit scheduling point is put in front of the op, the root
-/// cause is that op's missing scheduling point.
-fn with_yields(p: &Prog, pred: impl Fn(&Op) -> bool, at_task_end_with_ends: bool) -> Prog {
-    let mut q = p.clone();
-    for t in q.tasks.iter_mut() {
-        let mut ops = vec![];
-        let old = std::mem::take(&mut t.ops);
-        let n = old.len();
-        // map of old index -> new index to fix skip lengths
-        let mut newidx = vec![0usize; n + 1];
-        for (i, op) in old.iter().enumerate() {
-            if pred(op) {
-                ops.push(Op::Yield);
-            }
-            newidx[i] = ops.len();
-            ops.push(op.clone());
-        }
-        if at_task_end_with_ends && (!t.tx.is_empty() || !t.rx.is_empty()) {
-            ops.push(Op::Yield);
-        }
-        newidx[n] = ops.len();
-        for (i, op) in old.iter().enumerate() {
-            if let Op::SkipUnlessLast(v, len) = op {
-                // the guarded range must keep covering the same ops (and their inserted yields)
-                let end_old = i + 1 + len;
-                let start_new = newidx[i] + 1;
-                let end_new = if end_old >= n { ops.len().min(newidx[n]) } else { newidx[end_old] - if pred(&old[end_old]) { 1 } else { 0 } };
-                ops[newidx[i]] = Op::SkipUnlessLast(*v, end_new.saturating_sub(start_new));
-            }
-        }
-        t.ops = ops;
-    }
-    q
+fn known_opts() -> Opts {
+    Opts { sync_endpoint_drops: true, sync_avail: true, sync_barrier: true, sync_acq_drop: true, ..Default::default() }
 }
 
+/// A completeness disagreement is attributed to a known "missing scheduling point" finding iff it
+/// disappears once an explicit scheduling point is put in front of that class of op (and only then).
 fn signature_for_missing(prog: &Prog, tier: Tier) -> String {
-    // endpoint drops (explicit and at task end)
-    let a = with_yields(prog, |o| matches!(o, Op::DropTx(_) | Op::DropRx(_)), true);
-    if a != *prog && a.validate().is_ok() {
-        let r = osc::compare(&Arc::new(a), &caps(tier));
-        if r.judged && r.missing.is_empty() {
+    let p = Arc::new(prog.clone());
+    let try_with = |o: Opts| -> bool {
+        let r = osc::compare_opts(&p, &caps(tier), o);
+        r.judged && r.missing.is_empty()
+    };
+    if uses(prog, |o| matches!(o, Op::DropTx(_) | Op::DropRx(_))) || prog.tasks.iter().any(|t| !t.tx.is_empty() || !t.rx.is_empty()) {
+        if try_with(Opts { sync_endpoint_drops: true, ..Default::default() }) {
             return KNOWN_ENDPOINT_DROP.to_string();
         }
     }
-    let bw = with_yields(prog, |o| matches!(o, Op::BWait(_)), false);
-    if bw != *prog && bw.validate().is_ok() {
-        let r = osc::compare(&Arc::new(bw), &caps(tier));
-        if r.judged && r.missing.is_empty() {
-            return KNOWN_BARRIER_ARRIVAL.to_string();
-        }
+    if uses(prog, |o| matches!(o, Op::BWait(_))) && try_with(Opts { sync_barrier: true, ..Default::default() }) {
+        return KNOWN_BARRIER_ARRIVAL.to_string();
     }
-    let b = with_yields(prog, |o| matches!(o, Op::Avail(_)), false);
-    if b != *prog && b.validate().is_ok() {
-        let r = osc::compare(&Arc::new(b), &caps(tier));
-        if r.judged && r.missing.is_empty() {
-            return KNOWN_SEM_OBSERVERS.to_string();
-        }
+    if uses(prog, |o| matches!(o, Op::AcqStart(..))) && try_with(Opts { sync_acq_drop: true, ..Default::default() }) {
+        return KNOWN_ACQ_DROP.to_string();
+    }
+    if uses(prog, |o| matches!(o, Op::Avail(_))) && try_with(Opts { sync_avail: true, ..Default::default() }) {
+        return KNOWN_SEM_OBSERVERS.to_string();
     }
     String::new()
 }
 
 pub fn decide(p: &OscProp, c: &Case, tier: Tier, out: &mut CaseOut, strict: bool) -> Result<(), Fail> {
     let prog = Arc::new(c.prog.clone());
-    let r = osc::compare(&prog, &caps(tier));
+    // generated cases run with explicit scheduling points in front of the ops of known findings (counted);
+    // corpus replays (strict) run the raw program
+    let opts = if strict { Opts::default() } else { known_opts() };
+    if !strict && (uses(&c.prog, |o| matches!(o, Op::DropTx(_) | Op::DropRx(_) | Op::Avail(_) | Op::BWait(_) | Op::AcqStart(..))) || c.prog.tasks.iter().any(|t| !t.tx.is_empty() || !t.rx.is_empty())) {
+        out.count("excluded_by_known(sync point added)", 1);
+    }
+    let r = osc::compare_opts(&prog, &caps(tier), opts);
     out.evaluations += r.shuttle_executions;
     out.count("model_states", r.model_states);
     if let Some(nd) = &r.nondeterminism {
@@ -150,10 +124,15 @@ pub fn decide(p: &OscProp, c: &Case, tier: Tier, out: &mut CaseOut, strict: bool
     // ---- soundness
     if p.judge != Judge::Missing {
         if let Some((o, path)) = r.unsound.first() {
-            let sig = if r.unsound_explained_by_known { KNOWN_TRYSEND_FULL.to_string() } else { String::new() };
+            let sig = match (r.unsound_explained_by_known, r.known_flags) {
+                (true, 1) => KNOWN_TRYSEND_FULL.to_string(),
+                (true, 2) => KNOWN_REBLOCK.to_string(),
+                (true, _) => format!("{KNOWN_TRYSEND_FULL}+{KNOWN_REBLOCK}"),
+                _ => String::new(),
+            };
             if !sig.is_empty() && !strict {
                 // known finding: tolerated for generated cases (counted); the corpus keeps one strict regression case
-                out.class("excluded_by_known:try_send_full_behind_woken_sender");
+                out.class(if r.known_flags == 1 { "excluded_by_known:try_send_full_behind_woken_sender" } else { "excluded_by_known:reblock_if_unfair" });
                 out.count("excluded_by_known", 1);
                 return Ok(());
             }
@@ -209,6 +188,7 @@ pub fn case_strategy(p: &'static OscProp, tier: Tier) -> impl Strategy<Value = (
         cfg.max_ops = if big { tier.pick(p.max_ops, p.max_ops + 1) } else { 3.min(p.max_ops) };
         cfg.max_main_ops = 2;
         cfg.poison = p.poison;
+        cfg.avoid_known = false; // handled by Opts (explicit scheduling points), not by rewriting programs
         prog_strategy_stats(cfg).prop_map(|(prog, avoided)| (Case { prog }, avoided))
     })
 }
